@@ -13,9 +13,9 @@ Published rules implemented by `rule_check` (written from the rule text, not fro
 import itertools
 
 NAME = "akari"
-STATUS = "differential only"
+STATUS = "model+differential"
 THEOREMS = []
-LEAN_CMD = None
+LEAN_CMD = "puz_akari"
 
 WHITE = -2
 
